@@ -304,6 +304,9 @@ func VerifRoundTrip(args []string) {
 	input := verifText(verifHoles(args[0]))
 	compact := args[1] == "compact"
 	at := "#" + strings.ReplaceAll(args[0], "\n", "\\n") + "|" + args[1] // the skeleton is the discriminator of a finding
+	if len(args) > 3 && args[3] != "" {
+		at = "#" + args[3] + "|" + args[1] // skeleton families whose members fail alike share one discriminator
+	}
 	p := verifNew(input, false)
 	prog := p.ParseProgram()
 	if len(p.Errors()) > 0 || verifMissing(prog, false) {
